@@ -80,11 +80,11 @@ REG.bounded_check("C07.shape_inclusion", ["C07"], "C07.bounded",
 REG.bounded_check("C06.calls", ["C06"], "C06.bounded",
                   covers=["Signature.check_call_with_bound_args (generic pre-pass, resolve_bounds_map, return substitution)", "Signature._check_param_type_compatibility (cross-check)", "arg_spec constructor / dataclass / bound-method signatures, bind_self",
                           "the inferred type of the call against the runtime result"],
-                  bound="379 calls: 11 single-parameter functions and methods (int, str, float, Optional, Union, List, Tuple, object; instance / class / static method) x 10 literals; two-parameter, defaulted, *args: int, "
-                        "**kwargs: str functions and a dataclass constructor x 36 literal pairs; 5 TypeVar-generic functions (unbounded, bound, constrained): diagnosed <=> some argument outside its declared type (PEP 484 promotions), "
+                  bound="391 calls: 11 single-parameter functions and methods (int, str, float, Optional, Union, List, Tuple, object; instance / class / static method) x 10 literals; two-parameter, defaulted, *args: int, "
+                        "**kwargs: str functions and a dataclass constructor x 36 literal pairs; 5 TypeVar-generic functions (unbounded, bound, constrained); ill-typed defaults passed explicitly; constructors through a Python-level __new__ with annotated cls: diagnosed <=> some argument outside its declared type (PEP 484 promotions), "
                         "and the value returned by executing the call belongs to the inferred type")
 REG.bounded_check("C12.totality", ["C12"], "C12.bounded",
                   covers=["NameCheckVisitor on generated modules (catch-all, location extraction, context rendering)", "annotations._Visitor on odd annotations", "Value.can_assign / is_assignable / unite_values / substitute_typevars / can_overlap / __eq__ / __hash__ / __str__ on generated values"],
-                  bound="120 (quick) / 600 (thorough) modules of 3-8 functions drawn from 118 statement templates (wrong arities, bad operands, undefined names, odd annotations, decorators, classes, comprehensions, lambdas, "
+                  bound="120 (quick) / 600 (thorough) modules of 3-8 functions drawn from 118 statement templates and 57 odd annotation texts in 5 positions (string annotations on variables, parameters, returns, cast) (wrong arities, bad operands, undefined names, odd annotations, decorators, classes, comprehensions, lambdas, "
                         "star-expressions, f-strings, walrus, match, async), all error codes enabled as in the project's tests: no exception, no internal_error, registered code, line inside the file, column inside the line, "
                         "non-empty message; 36 x 36 pairs of Values (every Value class, TypeVars, empty / nested shapes): the value API returns")
